@@ -208,6 +208,14 @@ def run_case(case, seed):
         inputs, preds, final, stacked = ref_rollout(blocks, True)
         got, _ = ml.autoregressive_map(model, x0, None, past, n, const_dict)
         transitions += n
+        # the rollout must not modify its arguments, and a second call must repeat the first
+        if list(x0.keys()) != order or any(not np.array_equal(np.asarray(x0[kp]), blocks[kp]) for kp in order) or const_dict != dict(const):
+            bad("C16/argument-mutated", "autoregressive_map modified its input multi-image or the constant-field dictionary")
+        n_seen = len(seen_inputs)
+        got2, _ = ml.autoregressive_map(model, x0, None, past, n, const_dict)
+        del seen_inputs[n_seen:]
+        if any(not np.array_equal(np.asarray(got2[kp]), np.asarray(got[kp])) for kp in got.keys()):
+            bad("C16/not-repeatable", "a second identical rollout returned different values (stale state between calls)")
         # every intermediate input (state of the rollout)
         if len(seen_inputs) != n:
             bad("C16/map/calls", f"model called {len(seen_inputs)} times for n={n}")
